@@ -796,6 +796,16 @@ func (fr *frame) frameCheckCond(key string, ref *Term, cond *Term, st *State, at
 	ok := fr.assignsOK(key, ref, st)
 	name := fmt.Sprintf("frame/%s/%s", fr.topName(), key)
 	fr.vc.oblige("frame", name, fr.topProps(), And(st.reach, cond), ok, fr.pos(at.Pos()))
+	// positional frames: a write that happens after loop N has finished must also respect `loop N then-assigns`
+	if fr.parent == nil && at != nil && at.Block() != nil {
+		for _, li := range fr.loopOrd {
+			aok, has := fr.afterOK[li.ordinal]
+			if !has || li.blocks[at.Block()] || !li.header.Dominates(at.Block()) {
+				continue
+			}
+			fr.vc.oblige("frame", fmt.Sprintf("frame/%s/after-loop-%d:%s", fr.topName(), li.ordinal, key), fr.topProps(), And(st.reach, cond), aok(key, ref, st), fr.pos(at.Pos()))
+		}
+	}
 }
 
 func (fr *frame) frameCheckAll(st *State, at ssa.Instruction, what string) {
